@@ -64,3 +64,59 @@ def visibility(arr, conn):
     arr[1] = 23
     conn.send(saw)
     conn.close()
+
+
+def _us():
+    return int(time.monotonic() * 1e6)
+
+
+def q_producer(q, p, n, size, conn, nowait=False):
+    ev = []
+    for k in range(1, n + 1):
+        item = (p, k, bytes([k % 251]) * size)
+        while True:
+            t0 = _us()
+            try:
+                if nowait:
+                    q.put(item, False)
+                else:
+                    q.put(item)
+                ev.append({'k': 'put', 'who': p, 'p': p, 'n': k, 't0': t0, 't1': _us(), 'to': 0})
+                break
+            except Exception as exc:       # queue.Full
+                if type(exc).__name__ != 'Full':
+                    raise
+                ev.append({'k': 'full', 'who': p, 'p': p, 'n': k, 't0': t0, 't1': _us(), 'to': 0})
+                time.sleep(0.002)
+    conn.send(ev)
+    conn.close()
+
+
+def q_consumer(q, c, n, size, conn, timeout=None, joinable=False, delay=0.0):
+    ev = []
+    got = 0
+    bad = 0
+    while got < n:
+        t0 = _us()
+        try:
+            item = q.get() if timeout is None else q.get(True, timeout)
+        except Exception as exc:           # queue.Empty
+            if type(exc).__name__ != 'Empty':
+                raise
+            ev.append({'k': 'empty', 'who': c, 'p': 0, 'n': 0, 't0': t0, 't1': _us(),
+                       'to': int(timeout * 1e6)})
+            continue
+        t1 = _us()
+        p, k, payload = item
+        if payload != bytes([k % 251]) * size:
+            bad += 1
+        ev.append({'k': 'get', 'who': c, 'p': p, 'n': k, 't0': t0, 't1': t1, 'to': 0})
+        got += 1
+        if joinable:
+            if delay:
+                time.sleep(delay)
+            t0 = _us()
+            q.task_done()
+            ev.append({'k': 'task_done', 'who': c, 'p': p, 'n': k, 't0': t0, 't1': _us(), 'to': 0})
+    conn.send((ev, bad))
+    conn.close()
